@@ -442,6 +442,12 @@ func (tps *TPS) combineShares() PK {
 		}
 	}
 
+	// The sum of the shares is a scalar, it must be reduced or else it eventually outgrows its encoding
+	tps.sk.x.Mod(tps.pp.c.GroupOrder)
+	for i := 0; i < len(tps.sk.ys); i++ {
+		tps.sk.ys[i].Mod(tps.pp.c.GroupOrder)
+	}
+
 	pk := PK{
 		X: tps.pp.g2.Mul(tps.sk.x),
 		Y: make([]*math.G2, len(tps.sk.ys)),
